@@ -1,6 +1,6 @@
 (* C08 -- Blocks render independently, in order (partial: see MANIFEST level text). *)
 From Rimu Require Import Base Unicode Regex RegexAnalysis RegexParse Str Types Tables Guards State Inline Block
-  Frame FrameBlock FrameInst OptionsLemmas MiscLemmas MoreLemmas Plain TableFacts PlainDoc Lines RegexSem MatchLemmas MatchExact ExactTable Locality CodeBlock HeaderDoc ParaDoc Compose.
+  Frame FrameBlock FrameInst OptionsLemmas MiscLemmas MoreLemmas Plain TableFacts PlainDoc Lines RegexSem MatchLemmas MatchExact ExactTable Locality CodeBlock HeaderDoc ParaDoc Compose QuoteBlock.
 
 (* the block loop emits the rendering of the first block followed by the rendering of the rest,
    from the state and reader the first block left *)
@@ -180,3 +180,54 @@ Theorem C08_header_then_paragraph : forall n k doc mk title l R s, para_line (ie
   Ok (header_html mk title ++ [10] ++ $"<p>" ++ R ++ $"</p>", s).
 Proof. exact header_then_paragraph. Qed.
 Print Assumptions C08_header_then_paragraph.
+
+(* the session a fenced code block leaves (its closing pattern stored in the definition table) is again one all the block
+   theorems apply to: quiet_default constrains the table up to the closing patterns of the class-injecting definitions, which
+   are written before they are read *)
+Theorem C08_quiet_after_code : forall s, quiet_default s -> quiet_default (code_after s).
+Proof. exact quiet_code_after. Qed.
+Print Assumptions C08_quiet_after_code.
+
+Theorem C08_code_block_then_rest : forall fuel doc n content rest s, quiet_default s -> Forall nlfree content -> ~ In fence content ->
+  doc_loop (S fuel) doc (S n) (fence :: content ++ fence :: rest) s =
+  match doc_loop (S fuel) doc n rest (code_after s) with
+  | Ok (r, s2) => Ok (code_html content ++ match rest with [] => [] | _ => [10] end ++ r, s2)
+  | Raise e => Raise e
+  | Fuel => Fuel
+  end.
+Proof. exact code_block_then_rest. Qed.
+Print Assumptions C08_code_block_then_rest.
+
+Theorem C08_code_then_paragraph : forall n k doc content l R s, para_line (ienv_of s) l R ->
+  quiet_default s -> Forall nlfree content -> ~ In fence content ->
+  doc_loop (S (S (S (S n)))) doc (S (S (S k))) (fence :: content ++ fence :: [[]; l]) s =
+  Ok (code_html content ++ [10] ++ $"<p>" ++ R ++ $"</p>", code_after s).
+Proof. exact code_then_paragraph. Qed.
+Print Assumptions C08_code_then_paragraph.
+
+(* A CONTAINER BLOCK: a quote block as the first block of any reader renders to <blockquote> around whatever the nested
+   document render makes of its content (any content lines other than the delimiter), then the rest of the reader *)
+Theorem C08_quote_block_then_rest : forall fuel doc n content rest s inner s2,
+  quiet_default s -> Forall nlfree content -> ~ In qfence content ->
+  doc (join [10] content) (quote_open s) = Ok (inner, s2) -> dblocks_std (s_dblocks s2) ->
+  doc_loop (S fuel) doc (S n) (qfence :: content ++ qfence :: rest) s =
+  match doc_loop (S fuel) doc n rest (set_popts s2 expand_none) with
+  | Ok (r, s3) => Ok ($"<blockquote>" ++ inner ++ $"</blockquote>" ++ match rest with [] => [] | _ => [10] end ++ r, s3)
+  | Raise e => Raise e
+  | Fuel => Fuel
+  end.
+Proof. exact quote_block_then_rest. Qed.
+Print Assumptions C08_quote_block_then_rest.
+
+(* ... and with one paragraph line inside (plain text, an emphasis, an HTML tag, a macro invocation: any line with the paragraph
+   hypotheses), from the text through the reader: the nested render is the document renderer itself, one fuel unit lower *)
+Theorem C08_quote_paragraph_document : forall n l R s, para_line (ienv_of s) l R -> quiet_default s -> l <> qfence ->
+  doc_render (S (S (S (S (S (S (S n))))))) (qfence ++ 10 :: l ++ 10 :: qfence) s =
+  Ok ($"<blockquote><p>" ++ R ++ $"</p></blockquote>", quote_open s).
+Proof. exact quote_paragraph_document. Qed.
+Print Assumptions C08_quote_paragraph_document.
+
+Example C08_ex_quote :
+  match doc_render 12 ($"""""" ++ [10] ++ $"hello *w* x" ++ [10] ++ $"""""") (document_init S0) with
+  | Ok (html, _) => str_eqb html $"<blockquote><p>hello <em>w</em> x</p></blockquote>" | _ => false end = true.
+Proof. vm_compute. reflexivity. Qed.
